@@ -45,9 +45,17 @@ def EpochGuard (R : Router) (g : Genesis) (h : Hdr) (l : List Stored) : Prop :=
       (R.delayed = false → R.guardPhv = true → e1.vals.length / 2 < h.number - e1.height)
     | _ => True
 
+/-- `s` sits on top of the ancestors `l`: the first of them has the preceding number, and total difficulties add up -/
+abbrev Link (s : Stored) (l : List Stored) : Prop :=
+  ∃ p rest, l = p :: rest ∧ p.hdr.number + 1 = s.hdr.number ∧ s.td = s.hdr.difficulty + p.td
+
+/-- a per-member chain predicate that provides the parent link -/
+class HasLink (G : Stored → List Stored → Prop) : Prop where
+  link : ∀ {s l}, G s l → Link s l
+
 /-- What acceptance of `s` on top of the ancestors `l` (parent first, trust root last) established. -/
 structure Good (R : Router) (g : Genesis) (s : Stored) (l : List Stored) : Prop where
-  link : ∃ p rest, l = p :: rest ∧ p.hdr.number + 1 = s.hdr.number ∧ s.td = s.hdr.difficulty + p.td
+  link : Link s l
   epochParent : s.epochParent = some (firstEpochId g l)
   sealOk : s.hdr.signer = some s.hdr.coinbase
   member : s.hdr.coinbase ∈ inEffect R g s.hdr.number l
@@ -56,12 +64,17 @@ structure Good (R : Router) (g : Genesis) (s : Stored) (l : List Stored) : Prop 
   wf : WF s.hdr
   guard : EpochGuard R g s.hdr l
 
-/-- `Chain` whose members all satisfy `Good` with respect to their own ancestors. -/
-inductive GChain (R : Router) (st : St) (g : Genesis) : Id → List Stored → Prop
-  | root : st.hdrs g.hdr.id = some (rootOf g) → GChain R st g g.hdr.id [rootOf g]
+instance (R : Router) (g : Genesis) : HasLink (Good R g) := ⟨fun h => h.link⟩
+
+/-- `Chain` whose members above the trust root all satisfy `G` with respect to their own ancestors. -/
+inductive GChainP (G : Stored → List Stored → Prop) (st : St) (g : Genesis) : Id → List Stored → Prop
+  | root : st.hdrs g.hdr.id = some (rootOf g) → GChainP G st g g.hdr.id [rootOf g]
   | step (id : Id) (s : Stored) (l : List Stored) :
-      id ≠ g.hdr.id → st.hdrs id = some s → s.hdr.id = id → GChain R st g s.hdr.parent l → Good R g s l →
-      GChain R st g id (s :: l)
+      id ≠ g.hdr.id → st.hdrs id = some s → s.hdr.id = id → GChainP G st g s.hdr.parent l → G s l →
+      GChainP G st g id (s :: l)
+
+/-- the chains of the parlia / congress routers -/
+abbrev GChain (R : Router) (st : St) (g : Genesis) : Id → List Stored → Prop := GChainP (Good R g) st g
 
 structure GenOK (g : Genesis) : Prop where
   numPos : 0 < g.hdr.number
@@ -87,26 +100,26 @@ structure Inv (R : Router) (st : St) : Prop where
 
 /-! ## Chains -/
 
-theorem GChain.mono {R : Router} {st st' : St} {g : Genesis}
+theorem GChainP.mono {G : Stored → List Stored → Prop} {st st' : St} {g : Genesis}
     (hext : ∀ id s, st.hdrs id = some s → st'.hdrs id = some s) :
-    ∀ {id l}, GChain R st g id l → GChain R st' g id l := by
+    ∀ {id l}, GChainP G st g id l → GChainP G st' g id l := by
   intro id l h
   induction h with
   | root h0 => exact .root (hext _ _ h0)
   | step id s l hne hs hid _ hg ih => exact .step id s l hne (hext _ _ hs) hid ih hg
 
-theorem GChain.ne_nil {R : Router} {st : St} {g : Genesis} {id : Id} {l : List Stored}
-    (h : GChain R st g id l) : l ≠ [] := by
+theorem GChainP.ne_nil {G : Stored → List Stored → Prop} {st : St} {g : Genesis} {id : Id} {l : List Stored}
+    (h : GChainP G st g id l) : l ≠ [] := by
   cases h <;> simp
 
-theorem GChain.head_id {R : Router} {st : St} {g : Genesis} {id : Id} {s : Stored} {l : List Stored}
-    (h : GChain R st g id (s :: l)) : s.hdr.id = id ∧ st.hdrs id = some s := by
+theorem GChainP.head_id {G : Stored → List Stored → Prop} {st : St} {g : Genesis} {id : Id} {s : Stored} {l : List Stored}
+    (h : GChainP G st g id (s :: l)) : s.hdr.id = id ∧ st.hdrs id = some s := by
   cases h with
   | root h0 => exact ⟨rfl, h0⟩
   | step _ _ _ _ hs hid _ _ => exact ⟨hid, hs⟩
 
-theorem GChain.functional {R : Router} {st : St} {g : Genesis} :
-    ∀ {id l l'}, GChain R st g id l → GChain R st g id l' → l = l' := by
+theorem GChainP.functional {G : Stored → List Stored → Prop} {st : St} {g : Genesis} :
+    ∀ {id l l'}, GChainP G st g id l → GChainP G st g id l' → l = l' := by
   intro id l l' h
   induction h generalizing l' with
   | root h0 =>
@@ -124,23 +137,23 @@ theorem GChain.functional {R : Router} {st : St} {g : Genesis} :
       rw [ih hc']
 
 /-- inversion of a chain above the trust root -/
-theorem GChain.inv_step {R : Router} {st : St} {g : Genesis} {id : Id} {s : Stored} {l : List Stored}
-    (h : GChain R st g id (s :: l)) (hne : id ≠ g.hdr.id) :
-    st.hdrs id = some s ∧ s.hdr.id = id ∧ GChain R st g s.hdr.parent l ∧ Good R g s l := by
+theorem GChainP.inv_step {G : Stored → List Stored → Prop} {st : St} {g : Genesis} {id : Id} {s : Stored} {l : List Stored}
+    (h : GChainP G st g id (s :: l)) (hne : id ≠ g.hdr.id) :
+    st.hdrs id = some s ∧ s.hdr.id = id ∧ GChainP G st g s.hdr.parent l ∧ G s l := by
   cases h with
   | root _ => exact absurd rfl hne
   | step _ _ _ _ hs hid hc hg => exact ⟨hs, hid, hc, hg⟩
 
 /-- a chain that starts at the trust root's hash is the trust root alone -/
-theorem GChain.at_root {R : Router} {st : St} {g : Genesis} {l : List Stored}
-    (h : GChain R st g g.hdr.id l) : l = [rootOf g] := by
+theorem GChainP.at_root {G : Stored → List Stored → Prop} {st : St} {g : Genesis} {l : List Stored}
+    (h : GChainP G st g g.hdr.id l) : l = [rootOf g] := by
   cases h with
   | root _ => rfl
   | step _ _ _ hne _ _ _ _ => exact absurd rfl hne
 
 /-- every member of a chain is stored under its own hash and heads a chain of its own -/
-theorem GChain.suffix {R : Router} {st : St} {g : Genesis} :
-    ∀ {id l}, GChain R st g id l → ∀ pre a suf, l = pre ++ a :: suf → GChain R st g a.hdr.id (a :: suf) := by
+theorem GChainP.suffix {G : Stored → List Stored → Prop} {st : St} {g : Genesis} :
+    ∀ {id l}, GChainP G st g id l → ∀ pre a suf, l = pre ++ a :: suf → GChainP G st g a.hdr.id (a :: suf) := by
   intro id l h
   induction h with
   | root h0 =>
@@ -160,14 +173,14 @@ theorem GChain.suffix {R : Router} {st : St} {g : Genesis} :
       simp at hl
       exact ih xs a suf hl.2
 
-theorem GChain.mem_stored {R : Router} {st : St} {g : Genesis} {id : Id} {l : List Stored}
-    (h : GChain R st g id l) {a : Stored} (ha : a ∈ l) : st.hdrs a.hdr.id = some a := by
+theorem GChainP.mem_stored {G : Stored → List Stored → Prop} {st : St} {g : Genesis} {id : Id} {l : List Stored}
+    (h : GChainP G st g id l) {a : Stored} (ha : a ∈ l) : st.hdrs a.hdr.id = some a := by
   obtain ⟨pre, suf, hl⟩ := List.append_of_mem ha
   exact (h.suffix pre a suf hl).head_id.2
 
 /-- numbers go down by one along a chain: the element at position `i` has number `head number - i` -/
-theorem GChain.number_at {R : Router} {st : St} {g : Genesis} :
-    ∀ {id l}, GChain R st g id l → ∀ s rest, l = s :: rest → ∀ i a, l[i]? = some a → a.hdr.number + i = s.hdr.number := by
+theorem GChainP.number_at {G : Stored → List Stored → Prop} [HasLink G] {st : St} {g : Genesis} :
+    ∀ {id l}, GChainP G st g id l → ∀ s rest, l = s :: rest → ∀ i a, l[i]? = some a → a.hdr.number + i = s.hdr.number := by
   intro id l h
   induction h with
   | root h0 =>
@@ -183,13 +196,13 @@ theorem GChain.number_at {R : Router} {st : St} {g : Genesis} :
     | zero => simp at hi; rw [← hi]; simp
     | succ n =>
       simp at hi
-      obtain ⟨p, rest', hl', hnum, _⟩ := hg.link
+      obtain ⟨p, rest', hl', hnum, _⟩ := (HasLink.link hg)
       have := ih p rest' hl' n a hi
       omega
 
 /-- the last member of a chain is the trust root -/
-theorem GChain.last_root {R : Router} {st : St} {g : Genesis} :
-    ∀ {id l}, GChain R st g id l → l.getLast? = some (rootOf g) := by
+theorem GChainP.last_root {G : Stored → List Stored → Prop} {st : St} {g : Genesis} :
+    ∀ {id l}, GChainP G st g id l → l.getLast? = some (rootOf g) := by
   intro id l h
   induction h with
   | root _ => rfl
@@ -200,22 +213,22 @@ theorem GChain.last_root {R : Router} {st : St} {g : Genesis} :
     | cons x xs => simpa using ih
 
 /-- all numbers on a chain are at least the trust root's -/
-theorem GChain.number_ge {R : Router} {st : St} {g : Genesis} :
-    ∀ {id l}, GChain R st g id l → ∀ a ∈ l, g.hdr.number ≤ a.hdr.number := by
+theorem GChainP.number_ge {G : Stored → List Stored → Prop} [HasLink G] {st : St} {g : Genesis} :
+    ∀ {id l}, GChainP G st g id l → ∀ a ∈ l, g.hdr.number ≤ a.hdr.number := by
   intro id l h
   induction h with
   | root _ => intro a ha; simp at ha; subst ha; simp [rootOf]
   | step id s l _ _ _ hc hg ih =>
     intro a ha
     rcases List.mem_cons.mp ha with rfl | ha
-    · obtain ⟨p, rest, hl, hnum, _⟩ := hg.link
+    · obtain ⟨p, rest, hl, hnum, _⟩ := (HasLink.link hg)
       have := ih p (by rw [hl]; exact List.mem_cons_self)
       omega
     · exact ih a ha
 
 /-- members of a chain other than the last differ from the trust root's hash -/
-theorem GChain.length_eq {R : Router} {st : St} {g : Genesis} :
-    ∀ {id l}, GChain R st g id l → ∀ s rest, l = s :: rest → s.hdr.number = g.hdr.number + rest.length := by
+theorem GChainP.length_eq {G : Stored → List Stored → Prop} [HasLink G] {st : St} {g : Genesis} :
+    ∀ {id l}, GChainP G st g id l → ∀ s rest, l = s :: rest → s.hdr.number = g.hdr.number + rest.length := by
   intro id l h
   induction h with
   | root _ => intro s rest hl; simp at hl; obtain ⟨rfl, rfl⟩ := hl; simp [rootOf]
@@ -223,7 +236,7 @@ theorem GChain.length_eq {R : Router} {st : St} {g : Genesis} :
     intro s' rest hl
     simp at hl
     obtain ⟨rfl, rfl⟩ := hl
-    obtain ⟨p, rest', hl', hnum, _⟩ := hg.link
+    obtain ⟨p, rest', hl', hnum, _⟩ := (HasLink.link hg)
     have := ih p rest' hl'
     subst hl'
     simp
@@ -731,8 +744,8 @@ theorem firstGap_spec (canon : Nat → Option Id) :
         · exact Or.inr (by omega)
 
 /-- every number between the trust root's and the head's occurs on a chain, next to its parent -/
-theorem GChain.cover {R : Router} {st : St} {g : Genesis} :
-    ∀ {id c}, GChain R st g id c → ∀ s rest, c = s :: rest → ∀ i, g.hdr.number < i → i ≤ s.hdr.number →
+theorem GChainP.cover {G : Stored → List Stored → Prop} [HasLink G] {st : St} {g : Genesis} :
+    ∀ {id c}, GChainP G st g id c → ∀ s rest, c = s :: rest → ∀ i, g.hdr.number < i → i ≤ s.hdr.number →
       ∃ a b, a ∈ c ∧ b ∈ c ∧ a.hdr.number = i ∧ b.hdr.id = a.hdr.parent ∧ b.hdr.number + 1 = i ∧ a.hdr.id ≠ g.hdr.id := by
   intro id c h
   induction h with
@@ -746,7 +759,7 @@ theorem GChain.cover {R : Router} {st : St} {g : Genesis} :
     intro s' rest hc' i h1 h2
     simp at hc'
     obtain ⟨rfl, rfl⟩ := hc'
-    obtain ⟨p, rest', hl, hnum, _⟩ := hg.link
+    obtain ⟨p, rest', hl, hnum, _⟩ := (HasLink.link hg)
     by_cases hi : i = s.hdr.number
     · subst hl
       refine ⟨s, p, List.mem_cons_self, List.mem_cons_of_mem _ List.mem_cons_self, hi.symm, hc.head_id.1, by omega, by rw [hid]; exact hne⟩
@@ -754,8 +767,8 @@ theorem GChain.cover {R : Router} {st : St} {g : Genesis} :
       exact ⟨a, b, List.mem_cons_of_mem _ ha, List.mem_cons_of_mem _ hb, h3, h4, h5, h6⟩
 
 /-- if the canonical assignment at the head's height is the head, all of the head's ancestors are canonical -/
-theorem canon_covers {R : Router} {st : St} {g : Genesis} (hCI : CanonInv st g) :
-    ∀ {id c}, GChain R st g id c → ∀ s rest, c = s :: rest → st.canon s.hdr.number = some id →
+theorem canon_covers {G : Stored → List Stored → Prop} [HasLink G] {st : St} {g : Genesis} (hCI : CanonInv st g) :
+    ∀ {id c}, GChainP G st g id c → ∀ s rest, c = s :: rest → st.canon s.hdr.number = some id →
       ∀ b ∈ c, st.canon b.hdr.number = some b.hdr.id := by
   intro id c h
   induction h with
@@ -772,7 +785,7 @@ theorem canon_covers {R : Router} {st : St} {g : Genesis} (hCI : CanonInv st g) 
     obtain ⟨rfl, rfl⟩ := hc'
     rcases List.mem_cons.mp hb with rfl | hb
     · rw [hid]; exact hcan
-    · obtain ⟨p, rest', hl, hnum, _⟩ := hg.link
+    · obtain ⟨p, rest', hl, hnum, _⟩ := (HasLink.link hg)
       have hge := hc.number_ge p (by rw [hl]; exact List.mem_cons_self)
       have hle : b.hdr.number ≤ st.height ∨ True := Or.inr trivial
       have hsle : s.hdr.number ≤ st.height := by
@@ -792,9 +805,9 @@ theorem canon_covers {R : Router} {st : St} {g : Genesis} (hCI : CanonInv st g) 
       rw [hpn] at h4
       exact ih p rest' hl h4 b hb
 
-theorem rewrite_spec {R : Router} {st : St} {g : Genesis} (hCI : CanonInv st g)
+theorem rewrite_spec {G : Stored → List Stored → Prop} [HasLink G] {st : St} {g : Genesis} (hCI : CanonInv st g)
     (hdrs' : Id → Option Stored) (hext : ∀ id s, st.hdrs id = some s → hdrs' id = some s) :
-    ∀ {id c}, GChain R st g id c → ∀ s rest, c = s :: rest → ∀ (canon : Nat → Option Id) (fuel : Nat),
+    ∀ {id c}, GChainP G st g id c → ∀ s rest, c = s :: rest → ∀ (canon : Nat → Option Id) (fuel : Nat),
       c.length ≤ fuel → (∀ i, i ≤ s.hdr.number → canon i = st.canon i) →
       ∃ canon2, rewrite hdrs' fuel canon s.hdr.number id = .ok canon2 ∧
         (∀ a ∈ c, canon2 a.hdr.number = some a.hdr.id) ∧
@@ -828,13 +841,13 @@ theorem rewrite_spec {R : Router} {st : St} {g : Genesis} (hCI : CanonInv st g)
         have hcan' : st.canon s.hdr.number = some id := by rw [← hagree _ (Nat.le_refl _)]; exact hcan
         have hall := canon_covers hCI (.step id s l hne hs hid hc hg) s l rfl hcan'
         intro a ha
-        have hnum := (GChain.step id s l hne hs hid hc hg).number_at s l rfl
+        have hnum := (GChainP.step id s l hne hs hid hc hg).number_at s l rfl
         obtain ⟨i, hi⟩ := List.mem_iff_getElem?.mp ha
         have := hnum i a hi
         rw [hagree _ (by omega)]
         exact hall a ha
       · simp only [hcan, if_false, hext _ _ hs]
-        obtain ⟨p, rest', hl, hnum, _⟩ := hg.link
+        obtain ⟨p, rest', hl, hnum, _⟩ := (HasLink.link hg)
         have hpn : s.hdr.number - 1 = p.hdr.number := by omega
         rw [hpn]
         obtain ⟨canon2, h1, h2, h3, h4⟩ := ih p rest' hl (upd canon s.hdr.number (some id)) f
@@ -853,9 +866,9 @@ theorem rewrite_spec {R : Router} {st : St} {g : Genesis} (hCI : CanonInv st g)
 
 /-- `addHeader` on a fresh header whose parent heads a chain: it succeeds, stores the header with the summed total
 difficulty and keeps the canonical-chain invariant. -/
-theorem addHeader_spec {R : Router} {st : St} {g : Genesis} (hCI : CanonInv st g)
+theorem addHeader_spec {G : Stored → List Stored → Prop} [HasLink G] {st : St} {g : Genesis} (hCI : CanonInv st g)
     {h : Hdr} {p : Stored} {l : List Stored} (phv : HV)
-    (hfresh : st.hdrs h.id = none) (hc : GChain R st g p.hdr.id (p :: l)) (hp : h.parent = p.hdr.id)
+    (hfresh : st.hdrs h.id = none) (hc : GChainP G st g p.hdr.id (p :: l)) (hp : h.parent = p.hdr.id)
     (hnum : p.hdr.number + 1 = h.number) :
     ∃ st', addHeader st h p phv = .ok st' ∧ st'.genesis = st.genesis ∧
       st'.hdrs = upd st.hdrs h.id (some ⟨h, h.difficulty + p.td, phv.hash⟩) ∧ CanonInv st' g := by
@@ -1180,8 +1193,8 @@ theorem run_inv {R : Router} : ∀ (ops : List Op) {st : St}, Inv R st → Inv R
 
 /-! ## From the invariant to the vocabulary of the property statements -/
 
-theorem GChain.toChain {R : Router} {st : St} {g : Genesis} :
-    ∀ {id l}, GChain R st g id l → Chain st g id l := by
+theorem GChainP.toChain {G : Stored → List Stored → Prop} {st : St} {g : Genesis} :
+    ∀ {id l}, GChainP G st g id l → Chain st g id l := by
   intro id l h
   induction h with
   | root h0 => exact .root _ h0
@@ -1206,8 +1219,8 @@ theorem Chain.functional {st : St} {g : Genesis} :
       rw [ih hc']
 
 /-- total difficulty is the sum of the difficulties along the chain -/
-theorem GChain.td_sum {R : Router} {st : St} {g : Genesis} :
-    ∀ {id c}, GChain R st g id c → ∀ s rest, c = s :: rest → s.td = sumDiff c := by
+theorem GChainP.td_sum {G : Stored → List Stored → Prop} [HasLink G] {st : St} {g : Genesis} :
+    ∀ {id c}, GChainP G st g id c → ∀ s rest, c = s :: rest → s.td = sumDiff c := by
   intro id c h
   induction h with
   | root _ => intro s rest hc; simp at hc; obtain ⟨rfl, rfl⟩ := hc; simp [rootOf, sumDiff]
@@ -1215,7 +1228,7 @@ theorem GChain.td_sum {R : Router} {st : St} {g : Genesis} :
     intro s' rest hc'
     simp at hc'
     obtain ⟨rfl, rfl⟩ := hc'
-    obtain ⟨p, rest', hl, _, htd⟩ := hg.link
+    obtain ⟨p, rest', hl, _, htd⟩ := (HasLink.link hg)
     rw [htd, sumDiff, ih p rest' hl]
 
 /-- What the invariant says about one stored header above the trust root, in terms of its plain ancestry. -/
@@ -1445,18 +1458,18 @@ def c : Addr := List.replicate 20 3
 def d : Addr := List.replicate 20 4
 /-- trust root at number 5 announcing [a, b, c]; the recorded previous set (height 3) is the same -/
 def root : Hdr :=
-  ⟨1, 0, 5, a, none, 2, List.replicate 32 0 ++ a ++ b ++ c ++ List.replicate 65 0, 100, 30000000, 0, true, true, none⟩
+  ⟨1, 0, 5, a, none, 2, List.replicate 32 0 ++ a ++ b ++ c ++ List.replicate 65 0, 100, 30000000, 0, true, true, none, .drop⟩
 /-- number 6 sealed by b (out of turn: 6 mod 3 = 0 is a's slot, and a sealed the trust root) -/
-def h2 : Hdr := ⟨2, 1, 6, b, some b, 1, List.replicate 97 0, 103, 30000000, 0, true, true, none⟩
+def h2 : Hdr := ⟨2, 1, 6, b, some b, 1, List.replicate 97 0, 103, 30000000, 0, true, true, none, .drop⟩
 /-- number 7 sealed by c (out of turn), announcing the new set [a, b, d] -/
 def h3 : Hdr :=
-  ⟨3, 2, 7, c, some c, 1, List.replicate 32 0 ++ a ++ b ++ d ++ List.replicate 65 0, 106, 30000000, 0, true, true, none⟩
+  ⟨3, 2, 7, c, some c, 1, List.replicate 32 0 ++ a ++ b ++ d ++ List.replicate 65 0, 106, 30000000, 0, true, true, none, .drop⟩
 /-- a competing number 7 sealed by a, difficulty 1 -/
-def h4 : Hdr := ⟨4, 2, 7, a, some a, 1, List.replicate 97 0, 106, 30000000, 0, true, true, none⟩
+def h4 : Hdr := ⟨4, 2, 7, a, some a, 1, List.replicate 97 0, 106, 30000000, 0, true, true, none, .drop⟩
 /-- number 8 on the competing branch sealed by c in turn (8 mod 3 = 2): overtakes -/
-def h5 : Hdr := ⟨5, 4, 8, c, some c, 2, List.replicate 97 0, 109, 30000000, 0, true, true, none⟩
+def h5 : Hdr := ⟨5, 4, 8, c, some c, 2, List.replicate 97 0, 109, 30000000, 0, true, true, none, .drop⟩
 /-- rejected: sealed by an outsider -/
-def h6 : Hdr := ⟨6, 5, 9, d, some d, 1, List.replicate 97 0, 112, 30000000, 0, true, true, none⟩
+def h6 : Hdr := ⟨6, 5, 9, d, some d, 1, List.replicate 97 0, 112, 30000000, 0, true, true, none, .drop⟩
 def ops : List Op :=
   [.genesis root [⟨3, [a, b, c], none⟩], .hdr h2, .hdr h3, .hdr h4, .hdr h5, .hdr h6, .hdr h2]
 
